@@ -113,10 +113,26 @@ STD_DISCR = {('Ordering', 'Less'): -1, ('Ordering', 'Equal'): 0, ('Ordering', 'G
 def is_sym(v): return isinstance(v, z3.ExprRef)
 
 
+ASCII_TERMS = {}        # id -> z3 term known (assumed by the harness) to be < 0x80; holding the term keeps its id unique
+_W_CACHE = {}
+
+
+def mark_ascii(c):
+    if not isinstance(c, int): ASCII_TERMS[c.get_id()] = c
+
+
 def utf8w(c):
     if isinstance(c, int):
         return 1 if c < 0x80 else 2 if c < 0x800 else 3 if c < 0x10000 else 4
-    return z3.If(c < 0x80, 1, z3.If(c < 0x800, 2, z3.If(c < 0x10000, 3, 4)))
+    i = c.get_id()
+    if i in ASCII_TERMS: return 1
+    r = _W_CACHE.get(i)
+    if r is None:
+        r = z3.If(c < 0x80, 1, z3.If(c < 0x800, 2, z3.If(c < 0x10000, 3, 4)))
+        if len(_W_CACHE) > 20000: _W_CACHE.clear()
+        _W_CACHE[i] = (r, c)
+        return r
+    return r[0]
 
 
 def ssum(xs):
